@@ -1264,3 +1264,13 @@ VP("C09-R2C-mut-salt-size", "C09", "aliased digest size halved for the random sa
 VP("C09-R2C-mut-conditional-update", "C09", "salt only mixed in for long plaintexts", "C09-R2C", SEC,
    "        hasher.update(salt)\n        hasher.update(_as_bytes(plaintext))\n        return DigestValue",
    "        if len(plaintext) > 4:\n            hasher.update(salt)\n        hasher.update(_as_bytes(plaintext))\n        return DigestValue")
+VP("C10-R2C-mut-closure-drops-mask", "C10", "rendering closure forgets the mask", "C10-R2C", CORE,
+   "            return cfg.to_tree(virtual=virtual, sensitive_mask=sensitive_mask)", "            return cfg.to_tree(virtual=virtual)")
+VP("C10-R2C-mut-helper-swapped", "C10", "_mask_value helper: one-character masks verbatim, longer ones repeated", "C10-R2C", CORE,
+   "    if len(mask) == 1:\n        return mask * len(str(value))\n    return mask", "    if len(mask) != 1:\n        return mask * len(str(value))\n    return mask")
+VP("C10-R2C-mut-flag-ignored", "C10", "local `masking` flag dropped from the sensitive branch", "C10-R2C", CORE,
+   "            elif masking and isinstance(field, Field) and field.sensitive:", "            elif isinstance(field, Field) and field.sensitive:")
+VP("C10-R2C-mut-flag-inverted", "C10", "local `masking` flag computed the wrong way round", "C10-R2C", CORE,
+   "        masking = sensitive_mask is not None", "        masking = sensitive_mask is None")
+VP("C10-R2C-mut-mask-empty-too", "C10", "empty sensitive values are masked as well", "C10-R2C", CORE,
+   "                if field_value:\n                    value = _mask_value(field_value, sensitive_mask)", "                if True:\n                    value = _mask_value(field_value, sensitive_mask)")
